@@ -9,7 +9,7 @@ struct Explorer {
 	using Runner = typename E::Runner;
 	static constexpr int N = E::N;
 
-	struct Node { History hist; std::string key; int depth; bool activated; };
+	struct Node { History hist; std::string key; int depth; bool activated; std::vector<uint8_t> active; };
 
 	struct Exec {
 		const History* hist = nullptr;
@@ -338,6 +338,13 @@ struct Explorer {
 #if VT_MANUAL
 		{ Op o; o.type = OP_EXIT; ops.push_back(o); }
 #endif
+#if VT_PLANS
+		// external succeed(state) / fail(state) on an active state, one pending mark at a time
+		if ((opt.mode == "plans" || opt.marks) && n.key.find("|M") == std::string::npos)
+			for (int s = 1; s < N; ++s)
+				if (s < (int) n.active.size() && n.active[s])
+					for (int t : {(int) OP_SUCCEED, (int) OP_FAIL}) { Op o; o.type = (uint8_t) t; o.arg = (int16_t) s; ops.push_back(o); }
+#endif
 		extraOps(n, ops);
 		return ops;
 	}
@@ -386,7 +393,7 @@ struct Explorer {
 		if (x.keyAfter.find("|Q") != std::string::npos) { ++counters["states_with_leftover_queue_not_expanded"]; return; }
 		if ((long) seen.size() >= opt.maxStates) { capped = true; return; }
 		if (seen.insert(x.keyAfter).second) {
-			Node nn{x.full(), x.keyAfter, node.depth + 1, x.activatedAfter};
+			Node nn{x.full(), x.keyAfter, node.depth + 1, x.activatedAfter, x.after.active};
 			if (nn.depth > maxDepth) maxDepth = nn.depth;
 			if (samples.size() < 4 && nn.depth >= 2 && (nn.hist.back().script.size() || samples.size() < 2))
 				samples.push_back("{\"history\":" + historyJson(nn.hist) + ",\"state_key\":\"" + jesc(nn.key) + "\",\"step_trace\":\"" + jesc(E::traceText(x.trace, x.stepBegin, 40)) + "\"}");
@@ -398,7 +405,7 @@ struct Explorer {
 			// whatever else an exit leaves behind must not matter: re-activation is explored from EVERY exit history, not only
 			// from the representative of the key
 			inReenter = true;
-			Node nn{x.full(), x.keyAfter, node.depth + 1, false};
+			Node nn{x.full(), x.keyAfter, node.depth + 1, false, {}};
 			Op en; en.type = OP_ENTER;
 			++counters["reenter_from_every_exit_history"];
 			exploreStep(nn, en, frontier, opt.dev);
@@ -464,7 +471,7 @@ struct Explorer {
 
 	void explore() {
 		std::deque<Node> frontier;
-		Node root{{}, "", 0, false};
+		Node root{{}, "", 0, false, {}};
 		{	// reference for reset(): the first activation with default answers
 			Runner r;
 			r.env.monitoring = false;
@@ -554,6 +561,7 @@ int main(int argc, char** argv) {
 		else if (a == "--replay") opt.replay = next();
 		else if (a == "--verbose") opt.verbose = true;
 		else if (a == "--mode") opt.mode = next();
+		else if (a == "--marks") opt.marks = atoi(next().c_str()) != 0;
 		else if (a == "--info") {
 			printf("{\"type\":\"info\",\"program\":\"%s\",\"states\":%d,\"sizeof_instance\":%zu}\n", VT_PROG_NAME, VT_STATE_COUNT, sizeof(FSM::Instance));
 			return 0;
